@@ -2,6 +2,7 @@ import Driver.Util
 import Driver.C08
 import Driver.C09
 import Driver.C10
+import Driver.C12
 import Driver.Scheme
 import Driver.C01
 import Driver.C02
@@ -17,7 +18,7 @@ import Driver.C17
 import Driver.C18
 open Drv
 
-def handlers : List (String → Handler) := [Drv.C08.handle, Drv.C09.handle, Drv.C10.handle, Drv.Sch.handle, Drv.C01.handle, Drv.C02.handle, Drv.C03.handle, Drv.C05.handle, Drv.C04.handle, Drv.C06.handle, Drv.C13.handle, Drv.C14.handle, Drv.C15.handle, Drv.C16.handle, Drv.C17.handle, Drv.C18.handle]
+def handlers : List (String → Handler) := [Drv.C08.handle, Drv.C09.handle, Drv.C10.handle, Drv.C12.handle, Drv.Sch.handle, Drv.C01.handle, Drv.C02.handle, Drv.C03.handle, Drv.C05.handle, Drv.C04.handle, Drv.C06.handle, Drv.C13.handle, Drv.C14.handle, Drv.C15.handle, Drv.C16.handle, Drv.C17.handle, Drv.C18.handle]
 
 def answer (line : String) : String :=
   let (lhs, impl) := match line.trimAscii.toString.splitOn " => " with
